@@ -63,6 +63,9 @@ class Evaluator:
         self.on_subscript = on_subscript
         self.on_store = on_store
         self.trace: List[Any] = []
+        self.globals_env: Optional[Dict[str, Any]] = None  # module-level names (interpreters that follow calls)
+        self.global_names: set = set()
+        self.on_name: Optional[Callable[["Evaluator", ast.Name], Any]] = None
         self.loops = False  # interpret for-loops over concrete iterables (opt-in)
         self.with_binds_value = False  # interpret ``with X as m`` as ``m = X`` (opt-in)
 
@@ -83,8 +86,16 @@ class Evaluator:
         return e.value
 
     def _e_Name(self, e):
+        if e.id in self.global_names and self.globals_env is not None and e.id in self.globals_env:
+            return self.globals_env[e.id]
         if e.id in self.env:
             return self.env[e.id]
+        if self.globals_env is not None and e.id in self.globals_env:
+            return self.globals_env[e.id]
+        if self.on_name is not None:
+            v = self.on_name(self, e)
+            if v is not NotImplemented:
+                return v
         if e.id in ("True", "False", "None"):
             return {"True": True, "False": False, "None": None}[e.id]
         return Opaque(e.id)
@@ -386,7 +397,10 @@ class Evaluator:
         if self.on_store is not None and self.on_store(self, target, value):
             return
         if isinstance(target, ast.Name):
-            self.env[target.id] = value
+            if target.id in self.global_names and self.globals_env is not None:
+                self.globals_env[target.id] = value
+            else:
+                self.env[target.id] = value
         elif isinstance(target, (ast.Tuple, ast.List)):
             if isinstance(value, Opaque):
                 for t in target.elts:
@@ -432,6 +446,8 @@ class Evaluator:
             raise EvalRaise(name, s)
         elif isinstance(s, ast.Pass):
             pass
+        elif isinstance(s, ast.Global) and self.globals_env is not None:
+            self.global_names.update(s.names)
         elif isinstance(s, ast.For) and self.loops:
             it = self.eval(s.iter)
             if isinstance(it, Opaque):
@@ -452,6 +468,26 @@ class Evaluator:
                     continue
             if not broke:
                 self.run(s.orelse)
+        elif isinstance(s, ast.Try) and self.loops:
+            try:
+                try:
+                    self.run(s.body)
+                except EvalRaise as exc:
+                    for h in s.handlers:
+                        names = []
+                        if h.type is not None:
+                            names = [ast.unparse(t).split(".")[-1] for t in (h.type.elts if isinstance(h.type, ast.Tuple) else [h.type])]
+                        if h.type is None or exc.exc_type in names or "Exception" in names or "BaseException" in names:
+                            if h.name:
+                                self.env[h.name] = Opaque("exception")
+                            self.run(h.body)
+                            break
+                    else:
+                        raise
+                else:
+                    self.run(s.orelse)
+            finally:
+                self.run(s.finalbody)
         elif isinstance(s, ast.While) and self.loops:
             rounds = 0
             broke = False
